@@ -28,7 +28,48 @@ from nrel.hive.util.h3_ops import H3Ops
 from .encode import Interner, enc_pos, enc_route, q
 
 
+def ladder_graph(rng: random.Random) -> nx.MultiDiGraph:
+    """two parallel two-way streets of very short blocks joined by slow rungs: the fastest path
+    often steps sideways to the faster street and back - an A* estimate that is only slightly too
+    large already picks the direct, slower street here"""
+    g = nx.MultiDiGraph()
+    k = rng.randint(4, 9)
+    block_m = rng.choice([8.0, 13.5, 14.0, 17.3, 23.0, 24.5, 34.4, 60.0])
+    lat0, lon0 = 39.75 + rng.uniform(-0.02, 0.02), -104.98 + rng.uniform(-0.02, 0.02)
+    dlat = block_m / 111320.0
+    dlon = block_m / (111320.0 * 0.7688)
+    direct, parallel, rung = rng.choice([(50.0, 60.0, 30.0), (40.0, 60.0, 30.0), (50.0, 55.0, 25.0)])
+    for i in range(k + 1):
+        g.add_node(i, y=lat0, x=lon0 + i * dlon)
+        g.add_node(100 + i, y=lat0 + dlat, x=lon0 + i * dlon)
+
+    def add(i: int, j: int, speed: float):
+        a, b = g.nodes[i], g.nodes[j]
+        crow_m = 1000.0 * _exact_crow_km(a["y"], a["x"], b["y"], b["x"])
+        g.add_edge(i, j, length=max(1.0, crow_m), speed_kmph=speed)
+        g.add_edge(j, i, length=max(1.0, crow_m), speed_kmph=speed)
+
+    for i in range(k):
+        add(i, i + 1, direct)
+        add(100 + i, 100 + i + 1, parallel)
+    for i in range(k + 1):
+        add(i, 100 + i, rung)
+    return nx.convert_node_labels_to_integers(g, ordering="sorted")
+
+
+def _exact_crow_km(lat1: float, lon1: float, lat2: float, lon2: float) -> float:
+    """haversine distance between the cell centres of two coordinates, computed here (not by H3Ops)"""
+    from math import asin, cos, radians, sin, sqrt
+
+    (lat1, lon1), (lat2, lon2) = h3.h3_to_geo(h3.geo_to_h3(lat1, lon1, 15)), h3.h3_to_geo(h3.geo_to_h3(lat2, lon2, 15))
+    lat1, lon1, lat2, lon2 = map(radians, (lat1, lon1, lat2, lon2))
+    d = sin((lat2 - lat1) * 0.5) ** 2 + cos(lat1) * cos(lat2) * sin((lon2 - lon1) * 0.5) ** 2
+    return 2 * 6371 * asin(sqrt(d))
+
+
 def gen_graph(rng: random.Random) -> nx.MultiDiGraph:
+    if rng.random() < 0.15:
+        return ladder_graph(rng)
     g = nx.MultiDiGraph()
     n = rng.randint(3, 12)
     lat0, lon0 = 39.75 + rng.uniform(-0.02, 0.02), -104.98 + rng.uniform(-0.02, 0.02)
@@ -42,7 +83,7 @@ def gen_graph(rng: random.Random) -> nx.MultiDiGraph:
         if i == j or g.has_edge(i, j):
             return
         a, b = g.nodes[i], g.nodes[j]
-        crow_m = 1000.0 * H3Ops.great_circle_distance(h3.geo_to_h3(a["y"], a["x"], 15), h3.geo_to_h3(b["y"], b["x"], 15))
+        crow_m = 1000.0 * _exact_crow_km(a["y"], a["x"], b["y"], b["x"])
         length = rng.uniform(20.0, 3000.0) if arbitrary else max(1.0, crow_m * rng.uniform(1.0, 1.7))
         g.add_edge(i, j, length=length, speed_kmph=rng.choice(speeds))
 
